@@ -396,6 +396,10 @@ def rule_RE(run: Run) -> RuleResult:
                     rest = v.args[2:]
                     if len(v.args) < 2 or OWN_THREAD not in v.args[1].key() or any(not (isinstance(r_, Const) and r_.v is None) and not (isinstance(r_, Sym) and r_.head == "kw:default" and r_.args and isinstance(r_.args[0], Const) and r_.args[0].v is None) for r_ in rest):
                         ok_s, d_s = False, f"saves {v.key()[:100]}: a thread without a runtime gets a stand-in saved as its previous runtime, and leaving the block installs that instead of removing the entry"
+                elif isinstance(v, Sym) and v.head == "call:setdefault" and v.args and v.args[0].key() == T_KEY:
+                    # (reading the slot with setdefault creates the entry it then saves: the same stand-in)
+                    ok_s, d_s = False, (f"saves {v.key()[:100]}: looking the slot up with setdefault gives a thread without a runtime one, saved as its previous runtime — "
+                                        "leaving the block leaves that behind instead of removing the entry")
     res.add("labrea.runtime.Runtime.__enter__:saves exactly what the table held for the thread", ok_s, f, en.lineno, d_s, nec)
     # the per-thread stack may be discarded only once it is empty (an outer entry of the same runtime still needs it)
     ok3, d3 = True, "the thread's stack is dropped only when empty"
@@ -1302,6 +1306,9 @@ def rule_TI(run: Run) -> RuleResult:
     d_inh = ""
     for p in _paths_of(run, m, ih.node, None):
         if p.status != "ret":
+            continue
+        # (a path on which ``table.get(parent, Runtime())`` came out None does not exist: the table holds no None — R-NR — and the default is an object)
+        if any(v_ is True and k_.startswith(f"cmp:Is(call:get({T_KEY},") and ",new:Runtime(" in k_ and k_.endswith(",Const(None))") for k_, v_ in _atoms(p.conds).items()):
             continue
         # (setdefault does not count: it leaves an entry that is already there)
         wrote = any(wr and meth in ("__setitem__", "update") and key is not None and key.key() == OWN_THREAD for e, meth, key, val, wr in _table_events(p, T_KEY))
